@@ -131,6 +131,9 @@ pub fn explore<R: Send>(
                     if st.executions >= max_exec {
                         st.capped = true;
                     }
+                    if st.executions % 250 == 0 {
+                        eprintln!("[explore] {} executions, {} steps", st.executions, st.points);
+                    }
                     st.capped
                 };
                 {
